@@ -105,6 +105,20 @@ def run(R):
             crafted.append((cls, r[0], r[1]))
             add("crafted:" + cls, r[0], r[1], [], "crafted")
             add("crafted:" + cls, r[0], r[1], [7], "crafted-split")
+    # the same classes under keys of full size (every limb of r in play): the block before last is solved backwards from the final accumulator wanted,
+    # for messages of two to four blocks with and without a trailing block
+    for cls in polycraft.GENERIC_CLASSES:
+        for j in range(12 if thorough else 2):
+            key = rnd("gk/%s/%d" % (cls, j))
+            prefix = vlib.prng_bytes(R.seed, "c05/gp/%s/%d" % (cls, j), 16 * (j % 3))
+            tail = vlib.prng_bytes(R.seed, "c05/gt/%s/%d" % (cls, j), 16 * (j % 2))
+            blocks = polycraft.craft_generic(cls, key, prefix, tail, R.rng)
+            if blocks is None:
+                raise vlib.ToolError("no Poly1305 input of class %s could be crafted for a seeded key" % cls)
+            msg = prefix + blocks + tail
+            crafted.append((cls, key, msg))
+            add("crafted:" + cls, key, msg, [], "crafted-generic")
+            add("crafted:" + cls, key, msg, [len(prefix) + 9], "crafted-generic-split")
     R.rule = ("[new, input..., result|raw_result] per (key class, message, chunking): keys = seeded, all-ones, zero, r in 0..5, r max, clamped-bit patterns; messages = lengths "
               + ("0..80" if thorough else "boundary set up to 80") + ", saturating/wrap-around specials, seeded up to 4 KiB, inputs crafted for each branch class of the limb code (%d classes x %d);" % (len(polycraft.CLASSES), 40 if thorough else 2) + " chunkings = whole, byte-wise, TLC-generated splits at buffer size 16; "
               "distinct = (key class, message class/length, chunking); non-trivial = non-empty message")
@@ -126,7 +140,7 @@ def run(R):
             if v[0] == "COV":
                 for c in v[2]:
                     cov[c] = cov.get(c, 0) + 1
-        need = ["blk_wrap", "blk_h0_carry", "blk_h1_unnormalised", "fin_c1", "fin_c2", "fin_c3", "fin_wrap", "fin_h0_carry", "fin_h0_carry_h1_odd", "sel_ge_p", "sel_lt_p"]
+        need = ["blk_wrap", "blk_h0_carry", "blk_h1_unnormalised", "fin_c1", "fin_c2", "fin_c3", "fin_wrap", "fin_h0_carry", "fin_h0_carry_h1_odd", "sel_ge_p", "sel_lt_p", "pad_carry_into_saturated"]
         R.extra["donna_branch_classes"] = cov
         missing = [c for c in need if not cov.get(c)]
         if missing:
